@@ -718,9 +718,10 @@ func (x *gen) physQuery() qcase {
 }
 
 type qcase struct {
-	q       *sqlgen.Query
-	tys     []sqlgen.Ty
-	kind    string
+	q    *sqlgen.Query
+	tys  []sqlgen.Ty
+	kind string
+	keq  *keqInfo // keq stream: the key kinds of the database (nil elsewhere)
 }
 
 func (x *gen) query(thorough bool, mixed bool) qcase {
@@ -1035,7 +1036,11 @@ func run(a hx.RunArgs) error {
 	shapes := map[string]int{}
 
 	// runQuery runs one query (term + SQL text) under every configuration on the open engine.
+	var runQueryG func(cx *gen, e *eng.Eng, ctx *sql.Context, dbS, setupS string, qc qcase, text string, extra []config)
 	runQuery := func(e *eng.Eng, ctx *sql.Context, dbS, setupS string, qc qcase, text string, extra []config) {
+		runQueryG(x, e, ctx, dbS, setupS, qc, text, extra)
+	}
+	runQueryG = func(cx *gen, e *eng.Eng, ctx *sql.Context, dbS, setupS string, qc qcase, text string, extra []config) {
 		defCoster := e.E.Analyzer.Coster
 		hasNull := strings.Contains(dbS, "null")
 		var aliases []string
@@ -1048,7 +1053,7 @@ func run(a hx.RunArgs) error {
 		seen := map[string]string{} // plan text -> observation
 		defPlan := ""
 		firstObs, firstID, firstCfg, firstRegion := "", "", "", "-"
-		for ci, c := range append(extra, x.configs(aliases, a.Thorough)...) {
+		for ci, c := range append(extra, cx.configs(aliases, a.Thorough)...) {
 			stmt := withHint(text, c.hint)
 			setCoster := func() {
 				if c.coster != 0 {
@@ -1075,6 +1080,9 @@ func run(a hx.RunArgs) error {
 			obs := sqlgen.Canon(res, qc.tys, false)
 			seen[pt] = obs
 			ops := planOps(pt)
+			if qc.keq != nil {
+				ops = planOpsKeq(pt)
+			}
 			if ci == 0 {
 				defPlan = pt
 			}
@@ -1108,11 +1116,11 @@ func run(a hx.RunArgs) error {
 		}
 		out.Stat(fmt.Sprintf("distinct-plans-per-query:%d", len(seen)))
 	}
-	open := func(db *sqlgen.Db) (*eng.Eng, *sql.Context, string, string) {
+	openWith := func(db *sqlgen.Db, setup []string) (*eng.Eng, *sql.Context, string, string) {
 		e := eng.New("d")
 		ctx := e.Ctx()
-		e.MustExec(ctx, db.Setup()...)
-		setupS := hx.ListOf(append([]string{"setup"}, db.Setup()...), func(s string) string {
+		e.MustExec(ctx, setup...)
+		setupS := hx.ListOf(append([]string{"setup"}, setup...), func(s string) string {
 			if s == "setup" {
 				return s
 			}
@@ -1120,6 +1128,7 @@ func run(a hx.RunArgs) error {
 		})
 		return e, ctx, db.Sexp(), setupS
 	}
+	open := func(db *sqlgen.Db) (*eng.Eng, *sql.Context, string, string) { return openWith(db, db.Setup()) }
 
 	// corpus: the witnesses of the known findings first
 	for _, w := range corpus() {
@@ -1133,6 +1142,13 @@ func run(a hx.RunArgs) error {
 		}
 		out.Stat("corpus")
 	}
+
+	// C01-specific streams (own generators and PRNGs: the general stream below is the same sample
+	// with or without them): join keys whose equality is not byte equality (keq.go) and residual
+	// predicates over blocks of equal keys (mres.go)
+	st := &streams{a: a, out: out, g: g, openWith: openWith, runQuery: runQueryG}
+	st.keqStream()
+	st.mresStream()
 
 	for i := 0; i < nDb; i++ {
 		maxT := 3
@@ -1308,6 +1324,9 @@ func region(qc qcase, ops []string, hasNull bool) string {
 				return "hash_exclude_nulls_probe_miss"
 			}
 		}
+	}
+	if qc.keq != nil {
+		return keqRegion(qc, ops)
 	}
 	return "-"
 }
